@@ -136,6 +136,17 @@ CHECKS.update({
     ),
 })
 
+CHECKS.update({
+    "C10": dict(
+        engine="E4 z3 bounded model checking",
+        cat="model_checking",
+        text="PARTIAL (registry part). The read/compute/write micro-steps of BackendRegistry are re-derived from the AST of backend.py at every run (which methods hold the lock, read and write self.state); 2-3 threads run short programs of get / enter / exit / register; the schedule is a vector of symbolic thread ids; z3 searches for a schedule whose per-call observations and final state match no interleaving of whole calls (linearizability). The abstract call semantics are validated against the real BackendRegistryState on all small states; a sat schedule is replayed with real threads gated at the read/write boundaries.",
+        note="Assumed: functools.cache atomic per call; tracing/device/namespace stacks are thread-local (inventory scanned and listed). Bounds: 2 threads (3 thorough), <= 4 calls each, with-stack depth 4.",
+        tech="SMT-based bounded model checking of thread interleavings (linearizability) + gated-thread replay",
+        ref="DESIGN.md §3 C10",
+    ),
+})
+
 NOT_APPLICABLE = {
     "C17": "quantifies over all axis lengths and the syntactic form of generated text; stages 2-4 cannot run with symbolic sizes under any installed engine (sympy, numpy int32 casts), see DESIGN.md §3 C17",
 }
